@@ -1,3 +1,4 @@
 SPECIFICATION MCSpec
 INVARIANT LawsHoldOnModel
 CHECK_DEADLOCK FALSE
+CONSTANT Wide = FALSE
